@@ -160,3 +160,48 @@ add("C14", "model_checking",
     "(strong coupling without bath/with modes and no relaxation Hamiltonian) are counted as "
     "refused.",
     "DESIGN.md §3 C14")
+add("C06", "model_checking",
+    "exhaustive enumeration of system x bath x temperature x time-axis grid against analytic "
+    "golden-rule rates and Boltzmann factors",
+    "Full product sites(2,3 quick / 2-4 thorough) x coupling pattern x J x gap x reorganisation "
+    "energy x correlation time x temperature x admissible time axis x construction route (plain "
+    "Hamiltonian + system-bath interaction, spectral-density derived C(t), Aggregate). Oracles on "
+    "every state pair: off-diagonals >= 0, zero column sums, no transfer to/from the ground state, "
+    "k_up/k_down = Boltzmann factor (rounding level, enforced by construction), downhill element of "
+    "RedfieldRateMatrix, of the Redfield tensor read inside eigenbasis_of(H) and of the long-time "
+    "TD rate matrix vs the golden-rule sum with the analytic overdamped spectral density "
+    "(quadrature-limited tolerances derived per axis: 0.02+0.45 w dt etc., worst observed <= 0.17 of "
+    "the tolerance, smallest mutant effect >= 5x), Foerster column sums and detailed balance w.r.t. "
+    "relaxed site energies, spectral density odd in frequency, C(-w) = exp(-w/kT) C(w).",
+    "Overdamped Brownian baths only; <= 4 sites; 77-300 K; transition frequencies below the "
+    "library's 3000 1/cm cut-off; tensor-level and TD uphill detailed balance are not claimed by "
+    "the property; defects smaller than the stated quadrature tolerance are invisible.",
+    "DESIGN.md §3 C06")
+add("C10", "model_checking",
+    "exhaustive enumeration of Huang-Rhys factor x level-count x mode-count x molecule-count grid "
+    "against the closed Laguerre formula",
+    "Full products over Huang-Rhys factors (incl. negative shifts), level counts per electronic "
+    "state {1,2,3,5 / ..,8,20}, 1-3 modes per molecule, 1-3 molecules (uneven mode counts), "
+    "couplings, multiplicity: shift operator vs closed Laguerre formula (20x20 block), Poisson "
+    "distribution and its mean, unitarity and truncation-bounded orthogonality of blocks, state "
+    "counts per electronic state = product of declared level counts, every FCf / Hamiltonian "
+    "coupling / dipole element = electronic quantity x product over modes of reference overlaps, "
+    "diagonal energies, Molecule Hamiltonian spectrum vs truncated displaced oscillator.",
+    "Full vibrational state space only; level counts above 20 per state cannot be built by the "
+    "package (counted as unbuildable); the sign convention of the oscillator coordinate is not "
+    "fixed by the statement (either orientation accepted, one per case).",
+    "DESIGN.md §3 C10")
+add("C16", "model_checking",
+    "exhaustive enumeration of (baths, depth) for the index/link clauses and of a system x bath x "
+    "depth x initial-state grid for the dynamics clauses",
+    "Index set vs stars-and-bars compositions level by level, hsize, neighbour tables present "
+    "exactly inside and absent exactly at the boundaries and mutually inverse, decay factors, for "
+    "every K<=4 (5) and depth<=5 (7) through both construction paths; dynamics on monomer/dimers/"
+    "trimers for ALL N^2 spanning initial states and every depth: unit trace and Hermiticity at "
+    "every stored time (1e-10), zero coupling strength = closed-system expm dynamics in the same "
+    "rotating frame within a computed Taylor-4 bound, uncoupled sites: error vs "
+    "exp(-i(w-Omega)t-g(t)) never rises with depth and is below a calibrated tolerance at the "
+    "deepest level.",
+    "High-temperature overdamped baths for the analytic clause; <=3 sites, depth <=6 for dynamics; "
+    "fresh hierarchy per propagation (C15 owns reuse).",
+    "DESIGN.md §3 C16")
